@@ -544,6 +544,10 @@ pub fn block_size_spelling() -> impl Strategy<Value = Vec<u8>> {
         1 => prop::sample::select(vec![
             "4294967295", "4294967296", "6442450944", "3221225473", "3221225471", "1", "2", "4", "5", "7", "9", "00", "03", "+3", "3 ", " 3", "-3", "3.0", "0x3"
         ]).prop_map(|s| s.as_bytes().to_vec()),
+        // numbers of the shape m * 2^k for small odd m: powers of two, 3 * 2^k beyond the 31 valid ones,
+        // values that wrap to a valid size in 32 bits
+        1 => (prop::sample::select(vec![1u64, 3, 5, 9, 15]), 0u32..=40).prop_map(|(m, k)| (m << k).to_string().into_bytes()),
+        1 => (0u8..31, 1u64..4).prop_map(|(l, w)| ((3u64 << l) + (w << 32)).to_string().into_bytes()),
         1 => (20usize..160, 0u8..10).prop_map(|(n, d)| vec![b'0' + d.max(1); n]),
         1 => Just(Vec::new()),
         1 => (0u8..31, any::<u8>(), any::<u16>()).prop_map(|(l, b, p)| {
